@@ -18,6 +18,7 @@ import NiftyVerif.Lemmas.Hmc
 import NiftyVerif.Lemmas.HmcSlots
 import NiftyVerif.Lemmas.HmcVolume
 import NiftyVerif.Lemmas.HmcProgressive
+import NiftyVerif.Lemmas.HmcChain
 import Mathlib.MeasureTheory.Measure.Lebesgue.Basic
 
 namespace NiftyVerif.C32
@@ -219,6 +220,14 @@ theorem merge_multinomial (Wa Wb wi wj : ℝ) :
     (Real.exp wi / Real.exp Wa) * (1 - 1 / (1 + Real.exp (-(Wb - Wa)))) = Real.exp wi / Real.exp (lae Wa Wb)
     ∧ (Real.exp wj / Real.exp Wb) * (1 / (1 + Real.exp (-(Wb - Wa)))) = Real.exp wj / Real.exp (lae Wa Wb) :=
   merge_unbiased_multinomial Wa Wb wi wj
+
+/-! ## chain statistics -/
+
+/-- **chain_acceptance_is_mean**: the running update `a ← a + (x − a)/(idx+1)` of `update_chain` (HMC: accepted flags,
+    NUTS: per-tree acceptance) ends at the arithmetic mean of the per-sample values, for every chain length -/
+theorem chain_acceptance_is_mean {K : Type} [Field K] [CharZero K] (xs : List K) (h : xs ≠ []) :
+    accRun xs 0 0 = xs.sum / xs.length :=
+  Hmc.chain_acceptance_is_mean xs h
 
 /-! ## NUTS slot bookkeeping -/
 
